@@ -499,7 +499,11 @@ fn run_case(ctx: &CaseCtx, stats: &mut Stats, out: &mut Vec<Violation>, harness:
         inputs_v.extend(inputs::random_strings(&alpha, &mut rng, plan.random, plan.random_len));
         inputs_v.extend(inputs::guided(&mut compiled[0], &alpha, foreign, &mut rng, plan.guided, plan.guided_len));
         if plan.stress_n > 0 {
-            inputs_v.extend(inputs::stress(&alpha, foreign, &mut rng, plan.stress_n));
+            for w in inputs::stress(&alpha, foreign, &mut rng, plan.stress_n) {
+                let n = inputs::bounded_prefix_len(&mut compiled[0], &w, 3_000_000);
+                stats.class("stress_input_len_log2", &format!("{}", (n as f64).log2().floor()));
+                inputs_v.push(w[..n].to_vec());
+            }
         }
     }
     if let Ok(only) = std::env::var("VP_ONLY_INPUT") {
